@@ -77,6 +77,17 @@ def tasks(tier):
         cfg = dict(M=4, per_class=pc, max_unknown=mu, alphabet=["ok", "x:U", "x:T", "r:U"],
                    sleeper="policy")
         out.append({"family": "permit-sugar", "cfg": cfg, "entry": e, "bound": 0})
+    # a Retry-After hint longer than the time left while the designated strategy's delay fits: the
+    # hint is advice for the strategy, not a stop condition
+    for e in Q4:
+        cfg = dict(M=3, deadline=6, ra_ticks=9, alphabet=["ok", "x:R+ra", "r:R+ra", "x:T"],
+                   strat={"default": "legacy", "per": {}}, strat_menu=[1], max_unknown=None,
+                   durs=[0, 1])
+        out.append({"family": "permit-long-hint", "cfg": cfg, "entry": e, "bound": 1})
+    # the operation returns None and the result classifier rejects None
+    for M, e in itertools.product([2, 3], Q4):
+        cfg = dict(M=M, alphabet=["ok", "rn:T", "rn:P", "x:T"], force_rc=True, max_unknown=None)
+        out.append({"family": "permit-none-result", "cfg": cfg, "entry": e, "bound": 0})
     # an attempt fails inside its on_attempt_start hook: whatever the entry point makes of that,
     # a run of max_attempts M consults the strategy / sleeps / takes a token at most M-1 times
     for M, idx, bud, e in itertools.product([2, 3], [0, 1, 2], [None, {"max": 3, "window": 8}],
